@@ -7,3 +7,9 @@ import FpgoVerif.Props.C02
 #print axioms FpgoVerif.C02.C02_float_to_int
 #print axioms FpgoVerif.C02.C02_float64_bits_to_int
 #print axioms FpgoVerif.C02.C02_float32_bits_to_int
+#print axioms FpgoVerif.C02.C02_table_misc
+#print axioms FpgoVerif.C02.C02_unsupported
+#print axioms FpgoVerif.C02.C02_nil
+#print axioms FpgoVerif.C02.C02_toBool_int
+#print axioms FpgoVerif.C02.C02_toBool_float
+#print axioms FpgoVerif.C02.C02_bool_source
